@@ -124,26 +124,6 @@ theorem tell_eq_locate (recs : List (Int × Int × Int)) (hn : ∀ r ∈ recs, 1
       omega
     rw [tellLoop_eq_locate _ k (by omega) hwf hnf, hrecs]
 
-/-- `locate` in closed form. -/
-theorem locate_closed (pre : List (Int × Int)) (p n : Int) (post : List (Int × Int)) (off : Int)
-    (hpre : ∀ r ∈ pre, 0 ≤ r.2) (h0 : 0 ≤ off) (h1 : off < n) :
-    locate (pre ++ (p, n) :: post) ((pre.map (·.2)).sum + off) = .ok (p, off) := by
-  induction pre with
-  | nil => simp [locate, h1]
-  | cons r pre ih =>
-    obtain ⟨rp, rn⟩ := r
-    have hs : 0 ≤ (pre.map (·.2)).sum := by
-      apply sum_nonneg_of
-      intro x hx
-      obtain ⟨r, hr, rfl⟩ := List.mem_map.1 hx
-      exact hpre r (List.mem_cons_of_mem _ hr)
-    simp only [List.cons_append, List.map_cons, List.sum_cons, locate]
-    have : ¬ (rn + (pre.map (·.2)).sum + off < rn) := by omega
-    simp only [this, if_false]
-    have e : rn + (pre.map (·.2)).sum + off - rn = (pre.map (·.2)).sum + off := by omega
-    rw [e]
-    exact ih (fun r hr => hpre r (List.mem_cons_of_mem _ hr))
-
 /-- **Frame → record, closed form**: with frame counts ≥ 1, the frame at offset `off` of record `r` — i.e. frame number
 `(frames of all earlier records) + off` — maps to `(position of r, off)`. -/
 theorem tell_for_frame (pre : List (Int × Int × Int)) (r : Int × Int × Int) (post : List (Int × Int × Int)) (off : Int)
